@@ -97,9 +97,23 @@ def _static_case(case, mon, sigs, hist, metrics):
                 if refl:
                     # a reflection reverses every cell cycle in the abstract tissue; keep the stored orientation pattern
                     pass
-                r1 = realise.realise(at1, rng=np.random.default_rng(sseed), **kw)
                 a = static.solve(r0, fit=fit)
-                b = static.solve(r1, fit=fit)
+                pre = None
+                inplace = (not refl) and rng.random() < 0.35
+                if inplace:
+                    # the user transforms the coordinates of the SAME mesh objects (as ForSys(cm=True) or a unit conversion
+                    # does) and infers again on the same frame: nothing computed in the first pose may survive
+                    r1 = realise.realise(at1, rng=np.random.default_rng(sseed), **kw)
+                    # the pose-0 side of the F-MIRROR classification has to be read before the vertices move
+                    pre = {(j, k): static.correct_tangent(r0, k, j, fit) for (j, k) in a.coef}
+                    for vid, v in r0.vertices.items():
+                        v.x, v.y = r1.vertices[vid].x, r1.vertices[vid].y
+                    b = static.solve(r0, fit=fit, reuse=a)
+                    r1 = r0
+                    hist["in-place"] = hist.get("in-place", 0) + 1
+                else:
+                    r1 = realise.realise(at1, rng=np.random.default_rng(sseed), **kw)
+                    b = static.solve(r1, fit=fit)
             except Exception as exc:
                 import traceback
                 mon.fail("raises", "both poses can be solved", exc=repr(exc)[:160], xf=case["xf"], fit=fit,
@@ -137,7 +151,7 @@ def _static_case(case, mon, sigs, hist, metrics):
                 metrics["coef_diff_over_tol"] = max(metrics.get("coef_diff_over_tol", 0), abs(cb - R(ca)) / (20 * eps))
                 continue
             # where does the frame-dependent sign forcing strike?  (public data only)
-            ta, fsa = static.correct_tangent(r0, k, j, fit)
+            ta, fsa = pre[(j, k)] if pre is not None else static.correct_tangent(r0, k, j, fit)
             tb, fsb = static.correct_tangent(r1, k, j, fit)
             qa, qb = fb.q_mirror(ta, fsa), fb.q_mirror(tb, fsb)
             sa, sb = abs(qa - ta) > eps, abs(qb - tb) > eps
